@@ -90,7 +90,9 @@ func CheckControl(b *trav.Built, c Case, u trav.RefWalk) (fs []core.Finding, out
 	if u.Err != "" {
 		expErr = "load"
 	}
-	switch c.Control {
+	xform := strings.HasPrefix(c.Control, "xform-")
+	o.Transforming = xform
+	switch strings.TrimPrefix(c.Control, "xform-") {
 	case "node-budget":
 		o.NodeBudget = c.N
 		if c.N < int64(len(U)) {
@@ -216,6 +218,30 @@ func CheckControl(b *trav.Built, c Case, u trav.RefWalk) (fs []core.Finding, out
 		}
 	}
 	got := trav.RunWalk(b, b.Root, sel, o)
+	if xform {
+		// the transforming walk reports only its callbacks (the matched nodes); compared by path
+		var m []trav.Visit
+		for _, v := range expV {
+			if v.Reason == 'm' {
+				m = append(m, trav.Visit{Path: v.Path, Reason: 'm'})
+			}
+		}
+		expV = m
+		for i := range got.Visits {
+			got.Visits[i] = trav.Visit{Path: got.Visits[i].Path, Reason: 'm'}
+		}
+	}
+	if xform && got.Err == "" {
+		// an identity transform under any control returns an equal tree: links it did not follow stay links
+		want, _ := ref.Read1(b.Root)
+		var have ref.Val
+		if got.Result != nil {
+			have, _ = ref.Read1(got.Result)
+		}
+		if got.Result == nil || !ref.Equal(want, have) {
+			fs = append(fs, core.F(c.Control+"/identity-result-differs", "%s: identity transform returned %s, the root is %s", where, have, want))
+		}
+	}
 	if strings.HasPrefix(got.Err, "PANIC") {
 		return []core.Finding{core.F(c.Control+"/panic("+got.Err+")", "%s: %s", where, got.Err)}, "panic"
 	}
@@ -233,7 +259,7 @@ func CheckControl(b *trav.Built, c Case, u trav.RefWalk) (fs []core.Finding, out
 		fs = append(fs, core.F(fmt.Sprintf("%s/error-expected-%q-got-%q", c.Control, expErr, gotErr), "%s: unrestricted %s loads %d; observed visits %s err %q", where, paths(U), len(Lk), paths(got.Visits), got.Err))
 	}
 	if expL != nil || len(got.Loads) > 0 {
-		if strings.Join(expL, ",") != strings.Join(got.Loads, ",") && !(c.Control == "node-budget" && u.Err != "") {
+		if strings.Join(expL, ",") != strings.Join(got.Loads, ",") && !(strings.HasSuffix(c.Control, "node-budget") && u.Err != "") {
 			cls := "differs"
 			if len(got.Loads) > len(expL) {
 				cls = "extra-loads"
@@ -295,13 +321,13 @@ func graphs(quick bool) []trav.GraphSpec {
 func Main(r *core.Run) {
 	quick := r.Quick()
 	gs, ss := graphs(quick), selectors(quick)
-	r.Rule(fmt.Sprintf("for every (graph, selector) of %d graphs (trees ≤%d nodes, every cut ≤%d into blocks, dangling and repeated links) × %d selectors whose unrestricted real walk equals the reference: every node budget 0..|U|+1, every link budget 0..|Lk|+1, a start-at path for every visit of U, LinkVisitOnlyOnce, and every set of ≤2 (quick) / ≤3 links answered SkipMe. Non-trivial = restricted walk differs from the unrestricted one; distinct by (graph, selector, control setting).", len(gs), map[bool]int{true: 4, false: 5}[quick], map[bool]int{true: 2, false: 3}[quick], len(ss)))
+	r.Rule(fmt.Sprintf("for every (graph, selector) of %d graphs (trees ≤%d nodes, every cut ≤%d into blocks, dangling and repeated links) × %d selectors whose unrestricted real walk equals the reference: every node budget 0..|U|+1, every link budget 0..|Lk|+1, a start-at path for every visit of U, LinkVisitOnlyOnce, and every set of ≤2 (quick) / ≤3 links answered SkipMe; node budgets, link budgets and visit-once also on the transforming walk (identity function; its callbacks = the matched visits). Non-trivial = restricted walk differs from the unrestricted one; distinct by (graph, selector, control setting).", len(gs), map[bool]int{true: 4, false: 5}[quick], map[bool]int{true: 2, false: 3}[quick], len(ss)))
 	r.Assume("the unrestricted sequence U, its loads and the block each visit lies in come from the reference denotation and are used only where the real unrestricted walk equals it (otherwise the pair is counted as skipped and left to C07)")
 	var skippedPairs, pairs int64
 	core.ParallelFor(len(gs), func(gi int) {
 		b := trav.Build(gs[gi])
 		var lc core.LocalCounters
-		var nt, sk, pr int64
+		var nt, sk, pr, xsk int64
 		oc := map[string]int64{}
 		for _, s := range ss {
 			sel, err := s.Compile()
@@ -334,6 +360,40 @@ func Main(r *core.Run) {
 				lc.Evals++
 				oc[outcome]++
 				r.Report("control", c, fs)
+			}
+			// the transforming walk obeys the same controls: usable when its unrestricted callbacks are the matches of U
+			xf := trav.RunWalk(b, b.Root, sel, trav.WalkOpts{Transforming: true, NodeBudget: -1, LinkBudget: -1})
+			// (pairs whose unrestricted walk ends in a failed load are left out: the transforming walk goes
+			// through a map in the node's order, the visiting walks in the selector's field order, so which of
+			// "budget exhausted" and "load failed" comes first is not the same question for both)
+			xok := xf.Err == "" && u.Err == "" && strings.Join(xf.Loads, ",") == strings.Join(u.Loads, ",")
+			var um []string
+			for _, v := range u.Visits {
+				if v.Reason == 'm' {
+					um = append(um, v.Path)
+				}
+			}
+			if len(um) != len(xf.Visits) {
+				xok = false
+			} else {
+				for i := range um {
+					if um[i] != xf.Visits[i].Path {
+						xok = false
+					}
+				}
+			}
+			if xok {
+				for n := int64(0); n <= int64(len(u.Visits))+1; n++ {
+					run(Case{Control: "xform-node-budget", N: n})
+				}
+				for n := int64(0); n <= int64(len(u.Loads))+1; n++ {
+					run(Case{Control: "xform-link-budget", N: n})
+				}
+				if len(u.Loads) > 0 {
+					run(Case{Control: "xform-once"})
+				}
+			} else {
+				xsk++
 			}
 			for n := int64(0); n <= int64(len(u.Visits))+1; n++ {
 				run(Case{Control: "node-budget", N: n})
@@ -384,6 +444,9 @@ func Main(r *core.Run) {
 							sk = append(sk, dl[i])
 						}
 						run(Case{Control: "skip", Skip: sk})
+						if xok {
+							run(Case{Control: "xform-skip", Skip: sk})
+						}
 						nt++
 					}
 				}
@@ -396,6 +459,7 @@ func Main(r *core.Run) {
 		}
 		r.Add("pairs", pr)
 		r.Add("pairs_skipped_unrestricted_walk_differs_from_reference", sk)
+		r.Add("pairs_skipped_for_the_transforming_walk", xsk)
 		_ = skippedPairs
 		_ = pairs
 	})
